@@ -227,7 +227,8 @@ theorem C03_client_mech_used (cm : List (String × Mech)) (adv : List String) (p
     (name : String) (h : (clientNeg cm adv peer).used = some name) :
     name ∈ adv ∧ name ∈ cm.map (·.1) ∧
     ∃ resp rest, (clientNeg cm adv peer).sent = .auth name resp :: rest ∨
-      ((clientNeg cm adv peer).sent = [] ∧ (clientNeg cm adv peer).err = .mechErr) := by
+      ((clientNeg cm adv peer).sent = [] ∧
+        ((clientNeg cm adv peer).err = .mechErr ∨ (clientNeg cm adv peer).err = .panicked)) := by
   unfold clientNeg at h ⊢
   cases hs : select cm adv with
   | none => simp [hs, fail] at h
@@ -243,8 +244,10 @@ theorem C03_client_mech_used (cm : List (String × Mech)) (adv : List String) (p
         subst h <;> refine ⟨h1, hmem, ?_⟩
       · exact ⟨(mech []).resp, _, Or.inl rfl⟩
       · exact ⟨(mech []).resp, _, Or.inl rfl⟩
-      · exact ⟨[], [], Or.inr ⟨rfl, rfl⟩⟩
-      · exact ⟨[], [], Or.inr ⟨rfl, rfl⟩⟩
+      · exact ⟨[], [], Or.inr ⟨rfl, Or.inl rfl⟩⟩
+      · refine ⟨[], [], Or.inr ⟨rfl, ?_⟩⟩
+        simp only [fail, stepErr]
+        cases (mech []).panic <;> simp
 
 /-- no common mechanism: `errNoMechanisms`, nothing is sent, nothing is read -/
 theorem C03_client_no_mech (cm : List (String × Mech)) (adv : List String) (peer : List CEv)
@@ -524,6 +527,192 @@ example :
     let r := serverLoopW [("M", mech)] none 0 [.auth "M" .empty]
     r.authn = false ∧ r.err = .writeErr ∧ r.sent = [] := by decide
 
+/-! ### the negotiation context on the receiving side -/
+
+/-- **A done context never authenticates.**  Whether or not the implementation looks at the
+negotiation context (`ctx.looks`), and whenever the context becomes done (`ctx.cancelAt`: before
+the first element is read, between two round trips of a multi-step mechanism, …), a result
+that carries the `Authn` bit is exactly the result of the run with a live context — so
+`C03_server_sound` applies to it: an `<auth/>` for a configured mechanism was read, the
+mechanism completed on exactly the payloads received, the permission verdicts are those of
+its last step.  Leaving the loop because the context is done is not a way in. -/
+theorem C03_server_ctx (cfg : List (String × Mech)) (ctx : SCtx) (peer : List SEv) :
+    ∀ (cur : Option SCur) (i : Nat), (serverLoopC cfg ctx cur i peer).authn = true →
+      serverLoopC cfg ctx cur i peer = serverLoop cfg cur peer := by
+  induction peer with
+  | nil =>
+    intro cur i h
+    unfold serverLoopC at h
+    split at h <;> simp at h
+  | cons ev rest ih =>
+    intro cur i h
+    unfold serverLoopC at h ⊢
+    unfold serverLoop
+    by_cases hs : ctx.stops i = true
+    · simp [hs] at h
+    · simp only [hs, Bool.false_eq_true, if_false] at h ⊢
+      cases hev : sevent cfg cur ev with
+      | stop r => rfl
+      | cont c resp perms =>
+        simp only [hev, SRes.after_authn] at h ⊢
+        rw [ih (some c) (i + 1) h]
+
+/-- the context's error is never returned together with the `Authn` bit -/
+theorem C03_server_ctx_fail_closed (cfg : List (String × Mech)) (ctx : SCtx) (peer : List SEv)
+    (cur : Option SCur) (i : Nat) (h : (serverLoopC cfg ctx cur i peer).err ≠ .none) :
+    (serverLoopC cfg ctx cur i peer).authn = false := by
+  cases ha : (serverLoopC cfg ctx cur i peer).authn with
+  | false => rfl
+  | true =>
+    have e := C03_server_ctx cfg ctx peer cur i ha
+    rw [e] at h ha
+    exact absurd (serverLoop_authn_err cfg peer cur ha) h
+
+/-- an implementation that looks at the context and finds it done handles no further element:
+nothing is stepped, nothing is written (in particular no `<success/>`), no `Authn` -/
+theorem C03_server_ctx_done (cfg : List (String × Mech)) (k i : Nat) (hk : k ≤ i)
+    (cur : Option SCur) (peer : List SEv) :
+    (serverLoopC cfg ⟨true, some k⟩ cur i peer).authn = false ∧
+    (serverLoopC cfg ⟨true, some k⟩ cur i peer).err = .ctxErr ∧
+    (serverLoopC cfg ⟨true, some k⟩ cur i peer).sent = [] ∧
+    (serverLoopC cfg ⟨true, some k⟩ cur i peer).perms = [] := by
+  unfold serverLoopC
+  simp [SCtx.stops, hk]
+
+/-- the code as it is (`looks = false`): the context plays no role at all -/
+theorem C03_server_ctx_ignored (cfg : List (String × Mech)) (k : Option Nat) (peer : List SEv) :
+    ∀ (cur : Option SCur) (i : Nat), serverLoopC cfg ⟨false, k⟩ cur i peer = serverLoop cfg cur peer := by
+  induction peer with
+  | nil => intro cur i; unfold serverLoopC; simp [SCtx.stops, serverLoop]
+  | cons ev rest ih =>
+    intro cur i
+    unfold serverLoopC serverLoop
+    simp only [SCtx.stops, Bool.false_and, Bool.false_eq_true, if_false]
+    cases hev : sevent cfg cur ev with
+    | stop r => rfl
+    | cont c resp perms => simp only [ih]
+
+-- non-vacuity: the context is done before the first element / between the two round trips of
+-- a two-step mechanism: an implementation that looks gives up, one that does not completes
+example :
+    let mech : Mech := fun h => if h.length < 2 then { kind := .more, resp := [1] } else { kind := .done, resp := [2] }
+    let peer := [SEv.auth "M" (.valid [7]), .response .eq]
+    (serverLoopC [("M", mech)] ⟨true, some 0⟩ none 0 peer).err = .ctxErr ∧
+    (serverLoopC [("M", mech)] ⟨true, some 1⟩ none 0 peer).err = .ctxErr ∧
+    (serverLoopC [("M", mech)] ⟨true, some 1⟩ none 0 peer).sent = [.challenge [1]] ∧
+    (serverLoopC [("M", mech)] ⟨true, some 2⟩ none 0 peer).authn = true ∧
+    (serverLoopC [("M", mech)] ⟨false, some 0⟩ none 0 peer).authn = true := by
+  decide
+
+/-! ### a `Step` that panics -/
+
+/-- **A failed `Step` on the receiving side** — an error other than `sasl.ErrAuthn`, or a panic
+raised by the mechanism or by the application's permission callback below it, whatever the
+value it panics with — ends the exchange at once: no `Authn`, an error, nothing written (no
+`<success/>`); it surfaces as `panicked` exactly when it was a panic. -/
+theorem C03_server_step_fails (name : String) (mech : Mech) (hist : List Bytes) (p : Payload)
+    (d : Bytes) (hd : p.decodeServer = some d) (hk : (mech (hist ++ [d])).kind = .otherErr) :
+    ∃ r, sstep name mech hist p = .stop r ∧ r.authn = false ∧ r.err ≠ .none ∧ r.sent = [] ∧
+      (r.err = .panicked ↔ (mech (hist ++ [d])).panic ≠ none) := by
+  have e : sstep name mech hist p = .stop
+      { sfail (stepErr (mech (hist ++ [d]))) [] with
+        perms := (mech (hist ++ [d])).perms, used := some name, hist := hist ++ [d] } := by
+    simp only [sstep, hd, hk]
+  refine ⟨_, e, rfl, ?_, rfl, ?_⟩ <;>
+    simp only [sfail, stepErr] <;> cases (mech (hist ++ [d])).panic <;> simp
+
+/-- the same on the initiating side, for a `<challenge/>` and for a `<success/>` -/
+theorem C03_client_step_fails (mech : Mech) (hist : List Bytes) (p : Payload) (c : Bytes)
+    (rest : List CEv) (hp : p.decodeClient = some c) (hk : (mech (hist ++ [c])).kind = .otherErr) :
+    (clientLoop mech hist (.challenge p :: rest)).authn = false ∧
+    (clientLoop mech hist (.challenge p :: rest)).err ≠ .none ∧
+    (clientLoop mech hist (.challenge p :: rest)).sent = [] ∧
+    (clientLoop mech hist (.success p :: rest)).authn = false ∧
+    (clientLoop mech hist (.success p :: rest)).err ≠ .none := by
+  simp only [clientLoop, hp, hk, fail, stepErr]
+  cases (mech (hist ++ [c])).panic <;> simp
+
+/-- **Whatever the implementation does with panics.**  `pol` says which panics it recovers and
+turns into an error return (`sasl.go` recovers none).  For every such policy an authenticated
+exchange on the receiving side is one in which the mechanism *the application configured*
+ran to completion on the payloads received — every `Step` returned normally, said `more`
+except the last which said `done`: no policy makes a panicking `Step` count as completion. -/
+theorem C03_server_panic_policy (pol : PanicVal → Bool) (cfg : List (String × Mech)) (peer : List SEv)
+    (h : (serverNeg (guardCfg pol cfg) peer).authn = true) :
+    ∃ pre name m p d rs ds rest,
+      peer = pre ++ .auth name p :: (rs ++ rest) ∧ lookup cfg name = some (name, m) ∧
+      p.decodeServer = some d ∧ Resps rs ds ∧
+      (serverNeg (guardCfg pol cfg) peer).hist = d :: ds ∧ RunsToDone m [d] ds ∧
+      (serverNeg (guardCfg pol cfg) peer).err = .none := by
+  obtain ⟨pre, name, m', p, d, rs, ds, rest, e1, _, e3, _, e5, e6, _, e8, e9, f⟩ :=
+    C03_server_sound (guardCfg pol cfg) peer h
+  rw [lookup_guardCfg] at e3
+  cases hl : lookup cfg name with
+  | none => simp [hl] at e3
+  | some nm =>
+    obtain ⟨n, m⟩ := nm
+    simp only [hl, Option.map_some, Option.some.injEq, Prod.mk.injEq] at e3
+    obtain ⟨rfl, rfl⟩ := e3
+    exact ⟨pre, n, m, p, d, rs, ds, rest, e1, hl, e5, e6, e8, (RunsToDone_guard pol m ds [d]).mp e9, f.err⟩
+
+theorem C03_client_panic_policy (pol : PanicVal → Bool) (cm : List (String × Mech)) (adv : List String)
+    (peer : List CEv) (h : (clientNeg (guardCfg pol cm) adv peer).authn = true) :
+    ∃ name mech, select cm adv = some (name, mech) ∧
+      RunsToDone mech [] (clientNeg (guardCfg pol cm) adv peer).hist ∧
+      (clientNeg (guardCfg pol cm) adv peer).err = .none := by
+  obtain ⟨e0, name, m', e1, _, _, e4, _⟩ := C03_client_sound (guardCfg pol cm) adv peer h
+  rw [select_guardCfg] at e1
+  cases hl : select cm adv with
+  | none => simp [hl] at e1
+  | some nm =>
+    obtain ⟨n, m⟩ := nm
+    simp only [hl, Option.map_some, Option.some.injEq, Prod.mk.injEq] at e1
+    obtain ⟨rfl, rfl⟩ := e1
+    exact ⟨n, m, rfl, (RunsToDone_guard pol m _ []).mp e4, e0⟩
+
+/-- **A permission callback that panics has not accepted anything.**  With PLAIN configured
+and an application callback that panics (with whatever value) instead of returning a verdict,
+no exchange that ends on PLAIN is authenticated — under every panic policy. -/
+theorem C03_server_callback_panics (pol : PanicVal → Bool) (v : PanicVal) (cfg : List (String × Mech))
+    (peer : List SEv) (hcfg : lookup cfg "PLAIN" = some ("PLAIN", plainServerPanics v))
+    (hu : (serverNeg (guardCfg pol cfg) peer).used = some "PLAIN") :
+    (serverNeg (guardCfg pol cfg) peer).authn = false := by
+  cases ha : (serverNeg (guardCfg pol cfg) peer).authn with
+  | false => rfl
+  | true =>
+    obtain ⟨_, name, m', _, d, _, ds, _, _, _, e3, _, _, _, e7, _, e9, _⟩ :=
+      C03_server_sound (guardCfg pol cfg) peer ha
+    rw [e7] at hu
+    cases hu
+    rw [lookup_guardCfg, hcfg] at e3
+    simp only [Option.map_some, Option.some.injEq, Prod.mk.injEq, true_and] at e3
+    subst e3
+    have hk : (guard pol (plainServerPanics v) [d]).kind = .otherErr := by
+      rw [guard_kind, plainServerPanics_kind]
+    cases ds with
+    | nil => have h1 : (guard pol (plainServerPanics v) [d]).kind = .done := e9
+             rw [hk] at h1; cases h1
+    | cons c cs => have h1 : (guard pol (plainServerPanics v) [d]).kind = .more := e9.1
+                   rw [hk] at h1; cases h1
+
+-- non-vacuity: a callback that panics with a string, under the policy of `sasl.go` (the panic
+-- travels up) and under a recovering one (an error return); a mechanism whose second step panics
+example :
+    let cfg := [("PLAIN", plainServerPanics .stringVal)]
+    let peer := [SEv.auth "PLAIN" (.valid [0, 117, 0, 112])]
+    (serverNeg (guardCfg (fun _ => false) cfg) peer).err = .panicked ∧
+    (serverNeg (guardCfg (fun _ => false) cfg) peer).authn = false ∧
+    (serverNeg (guardCfg (fun _ => false) cfg) peer).sent = [] ∧
+    (serverNeg (guardCfg (fun _ => true) cfg) peer).err = .mechErr ∧
+    (serverNeg (guardCfg (fun _ => true) cfg) peer).authn = false := by
+  decide
+
+example :
+    let mech : Mech := fun h => if h.length < 2 then { kind := .more, resp := [1] } else { kind := .otherErr, panic := some .otherVal }
+    let r := serverNeg [("M", mech)] [.auth "M" (.valid [7]), .response .eq]
+    r.authn = false ∧ r.err = .panicked ∧ r.sent = [.challenge [1]] := by
+  decide
+
 /-! ### many sessions on one feature value -/
 
 /-- **No shared mutable state in the feature value** (regenerated from `sasl.go` on every
@@ -539,6 +728,13 @@ theorem C03_gen_closure_no_shared_writes : Generated.C03.saslClosureWrites = som
 built used inside the closures (nothing per-session is drawn once per feature value) -/
 theorem C03_gen_no_captured_call_results : Generated.C03.saslCapturedCallResults = some [] := by decide
 
+
+/-- **SASL is gated by the session state** (probed on every run: the harness builds the two
+feature values with the code under test and reads their masks): both `xmpp.SASL` and
+`xmpp.SASLServer` require exactly `Secure` and are prohibited exactly by `Authn` — an
+authenticated session is never put through a second exchange that could replace the identity
+the first one established, and credentials are not negotiated before the stream is secured. -/
+theorem C03_gen_feature_gates : Generated.C03.saslFeatureGates = some [(true, true), (true, true)] := by decide
 
 /-- **Sessions are independent.**  Whatever the schedule — any interleaving of the sessions'
 steps, any number of sessions — the state of session `i` is the state it reaches when run
